@@ -53,6 +53,13 @@ def run(ctx):
             from rules.locks import is_module_helper
             return callee.cls is None and is_module_helper(op, callee)
     w, paths = paths_of(prog, bi, model=HelperInl(prog))
+    if not any(sum(1 for o in p.ops if o.kind == 'yield') >= 2 for p in paths):
+        # a `while True:` loop that leaves from the top of its body needs one more (partial) pass before a path with two yields
+        # can end: ask again with one more unrolling
+        class HelperInl3(HelperInl):
+            loop_unroll = HelperInl.loop_unroll + 1
+        w, paths = paths_of(prog, bi, model=HelperInl3(prog))
+        ctx.notes.append('backoff_iter: no path with two yields at the standard loop bound; paths enumerated with one more unrolling')
     # validation before the first yield
     bad = None
     for p in paths:
